@@ -25,7 +25,7 @@ type monC15 struct {
 
 func init() { registerMonitor(func(w *World) Monitor { return &monC15{w: w} }) }
 
-func (m *monC15) Name() string           { return "C15" }
+func (m *monC15) Name() string              { return "C15" }
 func (m *monC15) PostBegin(ctx sdk.Context) {}
 func (m *monC15) PreEnd(ctx sdk.Context)    {}
 
